@@ -157,17 +157,20 @@ type GNode struct {
 	Inputs  []string
 	Outputs []string
 	Attrs   []*onnx.AttributeProto
+	Domain  string // NodeProto.domain ("" = default; "ai.onnx" is the other spelling of the default domain)
 }
 
 // Graph is a neutral description of a model that can be rendered to ONNX bytes.
 type Graph struct {
-	Inputs  []GInput
-	Inits   []GInit
-	Nodes   []GNode
-	Outputs []GInput
-	Opsets  []*onnx.OperatorSetIdProto // nil = [{"", 13}]
-	IR      int64                      // ir_version; 0 = 7
-	NoNames bool                       // nodes without a name (the field is optional)
+	Inputs       []GInput
+	Inits        []GInit
+	Nodes        []GNode
+	Outputs      []GInput
+	Opsets       []*onnx.OperatorSetIdProto // nil = [{"", 13}]
+	IR           int64                      // ir_version; 0 = 7
+	ValueInfos   []GInput                   // graph.value_info entries (annotations of values; they declare no inputs)
+	NoNames      bool                       // nodes without a name (the field is optional)
+	SpellDomains bool                       // every node carries its domain explicitly (ai.onnx / ai.onnx.ml)
 }
 
 // ValueInfo renders a declaration.
@@ -205,6 +208,9 @@ func (g *Graph) Proto() *onnx.ModelProto {
 	for _, o := range g.Outputs {
 		gp.Output = append(gp.Output, ValueInfo(o))
 	}
+	for _, v := range g.ValueInfos {
+		gp.ValueInfo = append(gp.ValueInfo, ValueInfo(v))
+	}
 	for _, it := range g.Inits {
 		gp.Initializer = append(gp.Initializer, TensorProto(it.Name, it.T, it.Raw))
 	}
@@ -213,7 +219,15 @@ func (g *Graph) Proto() *onnx.ModelProto {
 		if name == "" && !g.NoNames {
 			name = fmt.Sprintf("n%d", i)
 		}
-		gp.Node = append(gp.Node, &onnx.NodeProto{OpType: n.Op, Name: name, Input: n.Inputs, Output: n.Outputs, Attribute: n.Attrs})
+		domain := n.Domain
+		if domain == "" && g.SpellDomains {
+			// the default domain spelled out; the two ONNX-ML operators under their own domain
+			domain = "ai.onnx"
+			if n.Op == "Scaler" || n.Op == "LinearRegressor" {
+				domain = "ai.onnx.ml"
+			}
+		}
+		gp.Node = append(gp.Node, &onnx.NodeProto{OpType: n.Op, Name: name, Input: n.Inputs, Output: n.Outputs, Attribute: n.Attrs, Domain: domain})
 	}
 	ops := g.Opsets
 	if ops == nil {
